@@ -1,4 +1,5 @@
 import GqlgenVerif.Gen.Keywords
+import GqlgenVerif.Model.Order
 /-!
 # Naming — the identifier functions of `codegen/templates/templates.go`
 
@@ -97,28 +98,46 @@ def idipSkip (word rest : List Nat) : Bool :=
   let rem := word ++ rest
   rem.take 2 == word && (match rem.drop 3 with | x :: _ => isUpper x | [] => false)
 
-/-- the loop of `wordWalker`; `cur` = runes[w:i], `c :: rest` = runes[i:]; one iteration per unit of fuel -/
+/-- `!unicode.IsLower(runes[i])` for the rune after the current word (true at the end of the text) -/
+def headNotLower : List Nat → Bool
+  | [] => true
+  | x :: _ => !isLower x
+
+/-- outcome of one iteration of the `wordWalker` loop -/
+inductive StepRes where
+  /-- `continue`: the word goes on (new hasCommonInitial, runes[w:i], runes[i:]) -/
+  | cont (hci : Bool) (word : List Nat) (rest : List Nat)
+  /-- `f(&wordInfo{…})` is called; the next word starts at runes[i:] -/
+  | emit (info : WordInfo) (rest : List Nat)
+
+/-- one iteration of the loop of `wordWalker`; `cur` = runes[w:i], `c :: rest` = runes[i:] -/
+def stepWord (wo : Nat) (hci : Bool) (cur : List Nat) (c : Nat) (rest : List Nat) : StepRes :=
+  let la := lookAhead c rest
+  let eow := la.1
+  let rest' := la.2
+  let word := cur ++ [c]
+  let isInit := inits.contains word
+  let nextNotLower := headNotLower rest'
+  if !eow && !(isInit && nextNotLower) then
+    .cont (hci || isInit) word rest'
+  else
+    let up := upper word
+    if inits.contains up then
+      if shorts.contains up && !eow && idipSkip word rest' then
+        .cont hci word rest'
+      else
+        .emit ⟨wo, word, true, true⟩ rest'
+    else
+      .emit ⟨wo, word, false, hci⟩ rest'
+
+/-- the loop of `wordWalker`; one iteration per unit of fuel -/
 def walkAux : Nat → Nat → Bool → List Nat → List Nat → List WordInfo
   | 0, _, _, _, _ => []
   | _, _, _, _, [] => []
   | fuel + 1, wo, hci, cur, c :: rest =>
-    let la := lookAhead c rest
-    let eow := la.1
-    let rest' := la.2
-    let word := cur ++ [c]
-    let isInit := inits.contains word
-    let nextNotLower := match rest' with | [] => true | x :: _ => !isLower x
-    if !eow && !(isInit && nextNotLower) then
-      walkAux fuel wo (hci || isInit) word rest'
-    else
-      let up := upper word
-      if inits.contains up then
-        if shorts.contains up && !eow && idipSkip word rest' then
-          walkAux fuel wo hci word rest'
-        else
-          ⟨wo, word, true, true⟩ :: walkAux fuel (wo + 1) false [] rest'
-      else
-        ⟨wo, word, false, hci⟩ :: walkAux fuel (wo + 1) false [] rest'
+    match stepWord wo hci cur c rest with
+    | .cont hci' word rest' => walkAux fuel wo hci' word rest'
+    | .emit info rest' => info :: walkAux fuel (wo + 1) false [] rest'
 
 def walk (s : Name) : List WordInfo :=
   let t := trim s
@@ -255,19 +274,8 @@ def typeIdentifier : GoType → Name
   | .iface => str "interface"
 
 /-! ## identifiers declared by the generated model file and resolver interfaces -/
-/-- `<` on Go strings (bytewise; code points for ASCII) -/
-def ltName : Name → Name → Bool
-  | [], [] => false
-  | [], _ :: _ => true
-  | _ :: _, [] => false
-  | a :: r, b :: s => a < b || (a == b && ltName r s)
-
-def insertBy {α} (key : α → Name) (x : α) : List α → List α
-  | [] => [x]
-  | y :: ys => if ltName (key x) (key y) then x :: y :: ys else y :: insertBy key x ys
-
-/-- `sort.Slice(…, Name <)`; names are distinct so stability does not matter -/
-def sortBy {α} (key : α → Name) (l : List α) : List α := l.foldr (insertBy key) []
+/-- `sort.Slice(…, Name <)` (shared with C18: `Model/Order.lean`); names are distinct so stability does not matter -/
+def sortBy {α} (key : α → Name) (l : List α) : List α := Order.sortByKey key l
 
 inductive Kind where
   | iface   -- interface or union
@@ -307,16 +315,20 @@ deriving Repr, DecidableEq
 
 def nameOf (r : Reg) (parts : List Name) : Name := (r.lookup (modelKey parts)).getD []
 
-/-- identifiers declared by `models_gen.go` for the schema `ts`, by scope -/
+/-- modelgen's three sorted declaration lists, and the registry after the calls of `models.gotpl` -/
+def ifacesOf (ts : List TypeDecl) : List TypeDecl := sortBy (·.name) (ts.filter (·.kind == .iface))
+def modelsOf (ts : List TypeDecl) : List TypeDecl := sortBy (·.name) (ts.filter (·.kind == .model))
+def enumsOf (ts : List TypeDecl) : List TypeDecl := sortBy (·.name) (ts.filter (·.kind == .enum))
+def registryOf (ts : List TypeDecl) : Reg :=
+  (runCalls toGo [] (modelCalls (ifacesOf ts) (modelsOf ts) (enumsOf ts))).2
+
+/-- identifiers declared by `models_gen.go` for the schema `ts`, by scope, in template order -/
 def emittedModels (ts : List TypeDecl) : List (Scope × Name) × Reg :=
-  let ifaces := sortBy (·.name) (ts.filter (·.kind == .iface))
-  let models := sortBy (·.name) (ts.filter (·.kind == .model))
-  let enums := sortBy (·.name) (ts.filter (·.kind == .enum))
-  let r := (runCalls toGo [] (modelCalls ifaces models enums)).2
-  (ifaces.map (fun t => (Scope.pkg, nameOf r [t.name]))
-   ++ models.flatMap (fun t => (Scope.pkg, nameOf r [t.name]) ::
+  let r := registryOf ts
+  ((ifacesOf ts).map (fun t => (Scope.pkg, nameOf r [t.name]))
+   ++ (modelsOf ts).flatMap (fun t => (Scope.pkg, nameOf r [t.name]) ::
         t.fields.map (fun f => (Scope.struct (nameOf r [t.name]), toGo f.name)))
-   ++ enums.flatMap (fun t => (Scope.pkg, nameOf r [t.name]) ::
+   ++ (enumsOf ts).flatMap (fun t => (Scope.pkg, nameOf r [t.name]) ::
         t.values.map (fun v => (Scope.pkg, nameOf r [t.name, v])) ++ [(Scope.pkg, str "All" ++ nameOf r [t.name])]),
    r)
 
